@@ -242,9 +242,10 @@ def c05c(ctx):
     for cls in ('BundleV1', 'BundleV2'):
         f = ctx.fn('%s:%s._rel_tile_coord' % (COMPACT, cls))
         r = returns_of(f.node)
-        if len(r) != 1 or not isinstance(r[0].value, ast.Tuple) or len(r[0].value.elts) != 2:
+        form = f.canon.expr(r[0].value) if len(r) == 1 and r[0].value is not None else None     # closed form: components may be unpacked first
+        if form is None or not isinstance(form, ast.Tuple) or len(form.elts) != 2:
             raise Undecided('%s._rel_tile_coord does not return a 2-tuple' % cls)
-        for k, e in enumerate(r[0].value.elts):
+        for k, e in enumerate(form.elts):
             okform = isinstance(e, ast.BinOp) and isinstance(e.op, ast.Mod) and isinstance(e.left, ast.Subscript) \
                 and const_value(e.left.slice) == k
             m = try_const(e.right, repo, mod) if okform else None
